@@ -88,6 +88,21 @@ def rule_weights_fit(ctx, R):
                         ctx.check(s_['rv']['ty'] in ('i64', 'i128'), R, b, 'fixed-point-weight-is-64-bit', s_['rv']['ty'],
                                   'a scaled assignment weight is cast to %s: (100 - d) / confidence * 1e6 does not fit - the '
                                   'weight saturates / the solver\'s sums overflow' % s_['rv']['ty'], s_.get('ln', ''))
+            # ... and it is not saturated afterwards: a clamp / min of the scaled weights maps different metric values to
+            # one weight - ties the input did not have, which the solver then breaks by arrival order
+            sat = []
+            for c in b.find_calls('clamp', 'min', 'max'):
+                tys = [str(b.locals[a['pl']['l']]) for a in c.args if a.get('k') in ('copy', 'move') and not a['pl']['p']]
+                if 'Ord' in c.callee and tys and tys[0] == 'i64' and c.name != 'max':
+                    sat.append(c)
+                elif 'Ord' in c.callee and tys and tys[0] == 'i64' and c.name == 'max' and b.in_loop(c.bb):
+                    pass
+            n += 1
+            ctx.check(not sat, R, b, 'fixed-point-weight-not-saturated:' + b.npath.rsplit('::', 1)[-1], '',
+                      'the scaled assignment weights go through %s: metric values above the bound all get the same weight '
+                      '(Mahalanobis weights (100 - d) / confidence * 1e6 exceed 2^31 for confidence < 0.047) - a tie-free '
+                      'input becomes a tie that the solver breaks by arrival order' % sorted({c.name for c in sat}),
+                      sat[0].ln if sat else '')
     return n
 
 
